@@ -2324,7 +2324,7 @@ class Component(System):
                                 except KeyError:
                                     nondep_derivs.add(rel_key)
 
-                            if force_dense:
+                            if force_dense and deriv_value is not None:
                                 if directional:
                                     if rows is not None:
                                         in_size = wrt_meta['size']
